@@ -25,6 +25,7 @@ func c08(c *Ctx) {
 	c08r3(c, pkg)
 	c08r4(c, pkg)
 	c08asserts(c, pkg)
+	c08embedded(c, pkg)
 	if n := c.freshPerIteration("C08.R7", "core/mapping"); n < 2 {
 		c.R.Undecided("C08.R7", "core/mapping#fresh", "per-iteration stores of reflect.New targets are recognised", fmt.Sprintf("%d found", n))
 	}
@@ -893,4 +894,106 @@ func c08widths(c *Ctx, pkg, rule string) {
 		}
 		c.R.Check(len(bad) == 0 && n >= len(all), rule, pkg+".setMatchedPrimitiveValue", "every primitive kind is stored through the reflect setter of its own class with the supplied value", posOf(c, f), strings.Join(bad, "; "), bad, len(all))
 	}
+}
+
+// c08embedded: an optional embedded struct that is partially supplied must have every non-optional member
+// supplied (members are only processed when they have a value, so nothing else fills or rejects them).
+func c08embedded(c *Ctx, pkg string) {
+	rule := "C08.R8"
+	if f := c.fn(rule, pkg, "(*Unmarshaler).processAnonymousStructFieldOptional"); f != nil {
+		ps := c.paths(rule, f, px.Config{MaxVisits: 2, MaxPaths: 100000})
+		addDepth := func(p *px.Path, s *px.Sym) int {
+			n := 0
+			for d := 0; d < 8 && s != nil; d++ {
+				s = s.Strip(true)
+				if s.Kind == px.KBinOp && s.Op == token.ADD {
+					if k, ok := constInt(p, s.Y); ok && k == 1 {
+						n++
+						s = s.X
+						continue
+					}
+				}
+				break
+			}
+			return n
+		}
+		checked := 0
+		held := c.forall(rule, pkg+".(*Unmarshaler).processAnonymousStructFieldOptional", "every member that is not optional counts as required — whether or not it has a default — and counts as filled iff it has a value; a partially filled embedded struct is rejected unless required == filled (absent members are not processed here, so a default would otherwise be neither filled nor rejected)", f, ps, func(p *px.Path) (bool, string) {
+			// the final comparison
+			var cmp *px.Sym
+			for _, b := range p.All(px.KindIs(px.EvBranch)) {
+				cnd := b.Cond.Strip(true)
+				if cnd.Kind == px.KBinOp && (cnd.Op == token.NEQ || cnd.Op == token.EQL) && cnd.X.Typ != nil && cnd.Y.Typ != nil {
+					bx, okx := cnd.X.Typ.Underlying().(*types.Basic)
+					by, oky := cnd.Y.Typ.Underlying().(*types.Basic)
+					if okx && oky && bx.Kind() == types.Int && by.Kind() == types.Int {
+						cmp = cnd
+					}
+				}
+			}
+			if cmp == nil {
+				return true, ""
+			}
+			nonOpt, nonOptFilled := 0, 0
+			var hasValue *px.Sym
+			for i := range p.Events {
+				e := &p.Events[i]
+				if e.Kind != px.EvCall {
+					continue
+				}
+				switch shortName(e.Call) {
+				case pkg + ".getValue":
+					hasValue = findExtract(p, e.Res, 1)
+				case pkg + ".(*fieldOptionsWithContext).optional":
+					if p.Abs(e.Res).K == px.False {
+						nonOpt++
+						if hasValue != nil && p.Abs(hasValue).K == px.True {
+							nonOptFilled++
+						}
+					}
+				}
+			}
+			checked++
+			a, b := addDepth(p, cmp.X), addDepth(p, cmp.Y)
+			if !((a == nonOpt && b == nonOptFilled) || (b == nonOpt && a == nonOptFilled)) {
+				return false, fmt.Sprintf("%d non-optional members (%d of them supplied) were seen on this path but the counters compared are %d and %d: some non-optional member is not counted as required (e.g. one with a default), so an absent member of a partially supplied embedded struct is neither filled nor rejected", nonOpt, nonOptFilled, a, b)
+			}
+			return true, ""
+		})
+		if held && checked == 0 {
+			c.R.Undecided(rule, pkg+".processAnonymousStructFieldOptional#cmp", "the required/filled comparison is recognised", "no comparison of two counters found")
+		}
+	}
+	if f := c.fn(rule, pkg, "readKeys"); f != nil {
+		ps := c.paths(rule, f, px.Config{})
+		c.forall(rule, pkg+".readKeys", "the split-key cache (keyed by the key text only) is neither read nor written for opaque keys: `a.b` means [a b] to the json/conf unmarshallers and [a.b] to the form/path ones, and one must not poison the other", f, ps, func(p *px.Path) (bool, string) {
+			opaque := 0
+			for _, b := range p.All(px.KindIs(px.EvBranch)) {
+				if isParam(b.Cond, f.Params[1]) {
+					opaque = triOf(b.Taken)
+				}
+			}
+			touch := false
+			for i := range p.Events {
+				e := &p.Events[i]
+				if (e.Kind == px.EvLookup || e.Kind == px.EvMapUpdate) && px.IsGlobalLoad(e.Addr, mod+pkg, "cacheKeys") {
+					touch = true
+					if opaque == 0 {
+						return false, "the cache is used before the opaque flag was examined"
+					}
+				}
+			}
+			if opaque == 1 && touch {
+				return false, "an opaque key goes through the shared cache"
+			}
+			if opaque == 1 && p.Exit == px.ExitReturn {
+				els := p.SliceElems(p.Results[0])
+				if len(els) != 1 || !isParam(els[0], f.Params[0]) {
+					return false, "an opaque key is not returned as the single element [key]"
+				}
+			}
+			return true, ""
+		})
+	}
+	c.R.Min(rule, 2, "processAnonymousStructFieldOptional, readKeys")
 }
